@@ -50,11 +50,67 @@ def posterior_ob(prog, cls, ctx):
               anchor, group="posterior")
 
 
+def roundtrip_ob(prog, cls):
+    """p(x|y) = T_cond(p(y|x), p(x)),  p(y) = T_marg(p(y|x), p(x));  T_cond(p(x|y), p(y)) recovers p(y|x) and T_marg(p(x|y), p(y))
+    recovers p(x).  Component by component (single components on both sides).
+
+    Stated axiom (Woodbury): Inv(Sigma + M Sigma_x M') = Lambda - Lambda M Inv(Lambda_x + M' Lambda M) M' Lambda, applied by substituting
+    the opaque head the analysed code produced for the left-hand side.  Because the recovered precision L_r is then *proved* equal to
+    Lambda (invertible), the gain and offset are compared after multiplication with it: L_r M_r == Lambda M, L_r b_r == Lambda b
+    (the products reduce by Inv(X) X = I for the value-numbered X); Sigma_r / ln det follow from the C04 invariant of the result.
+    The recovered prior covariance is compared after multiplication with the (invertible) posterior precision on both sides."""
+    owner, _ = prog.method(cls, "affine_conditional_transformation")
+    anchor = f"{C}::{owner}.affine_conditional_transformation"
+
+    def run():
+        I, c, px, sizes = setup_cond(cls, "1/1")
+        Rc, Rx, Dy, Dx = sizes
+        post = I.call_method(c, "affine_conditional_transformation", [px])
+        py = I.call_method(c, "affine_marginal_transformation", [px])
+        back = I.call_method(post, "affine_conditional_transformation", [py])
+        pxb = I.call_method(post, "affine_marginal_transformation", [py])
+        for o, want in ((back, "ConditionalGaussianPDF"), (pxb, "GaussianPDF")):
+            if not I.prog.is_subclass(o.cls, want):
+                raise Refuted(f"round trip returns a {o.cls}", anchor)
+        M, b, S, L, lds = cond_params(c, Rc, Dy, Dx)
+        Sp, Lp = post.f["Sigma"], post.f["Lambda"]
+        # the posterior covariance is the inverse of Lambda_x + M' Lambda M (the value the Woodbury right-hand side needs)
+        Lp_ref = nf.add(px.f["Lambda"], nf.einsum("ryx,ryw,rwz->rxz", M, L, M))
+        d = [("posterior precision",) + tuple(q) for q in nf.diff(Lp, Lp_ref, what="Lambda_post")[:3]]
+        d += [("posterior covariance is not Inv(posterior precision)",) + tuple(q) for q in nf.diff(Sp, nf.inverse(Lp_ref)[0], what="Sigma_post")[:3]]
+        d += [("Sigma_y",) + tuple(q) for q in nf.diff(py.f["Sigma"], nf.add(S, nf.einsum("ryx,rxz,rwz->ryw", M, px.f["Sigma"], M)), what="Sigma_y")[:3]]
+        d += [("Lambda_y is not Inv(Sigma_y)",) + tuple(q) for q in nf.diff(py.f["Lambda"], nf.inverse(py.f["Sigma"])[0], what="Lambda_y")[:3]]
+        woodbury = nf.add(L, nf.einsum("ryz,rzx,rxw,rvw,rvu->ryu", L, M, Sp, M, L), -1)
+
+        def W(v):
+            return nf.subst_head_top(v, py.f["Lambda"], woodbury, "Woodbury identity")
+        Lr = back.f["Lambda"]
+        d += [("recovered precision",) + tuple(q) for q in nf.diff(W(Lr), L, what="Lambda_r")[:4]]
+        d += [("recovered gain (times the recovered precision)",) + tuple(q)
+              for q in nf.diff(W(nf.einsum("ryz,rzx->ryx", Lr, back.f["M"])), nf.einsum("ryz,rzx->ryx", L, M), what="Lambda_r M_r")[:4]]
+        Lb = W(nf.einsum("ryz,rz->ry", Lr, back.f["b"]))
+        bref = nf.einsum("ryz,rz->ry", L, b) if b is not None else nf.scale(Lb, 0)
+        d += [("recovered offset (times the recovered precision)",) + tuple(q) for q in nf.diff(Lb, bref, what="Lambda_r b_r")[:4]]
+        d += [("recovered covariance is not Inv(recovered precision)",) + tuple(q) for q in nf.diff(back.f["Sigma"], nf.inverse(Lr)[0], what="Sigma_r")[:3]]
+        # p(x) recovered by the marginal transformation of p(x|y) with p(y)
+        d += [("recovered prior mean",) + tuple(q) for q in nf.diff(pxb.f["mu"], px.f["mu"], what="mu_x")[:4]]
+        d += [("recovered prior covariance (between posterior precisions)",) + tuple(q)
+              for q in nf.diff(nf.einsum("rab,rbc,rcd->rad", Lp, pxb.f["Sigma"], Lp), nf.einsum("rab,rbc,rcd->rad", Lp, px.f["Sigma"], Lp), what="Lp Sigma_x Lp")[:4]]
+        return d, dict(funcs=funcs_of(I), construct=anchor)
+    return Ob(f"roundtrip/{cls}", run,
+              "T_cond(T_cond(p(y|x), p(x)), T_marg(p(y|x), p(x))) == p(y|x) and T_marg(T_cond(..), T_marg(..)) == p(x): precision by the Woodbury axiom, "
+              "gain / offset / prior covariance after multiplication with the proved-invertible precision, prior mean directly",
+              anchor, group="roundtrip")
+
+
 def obligations(tier):
     prog = model.load()
-    return [posterior_ob(prog, cls, ctx) for cls in drivers.COND_CLASSES for ctx in drivers.BATCH_CTX + drivers.ROUTE_CTX]
+    obs = [posterior_ob(prog, cls, ctx) for cls in drivers.COND_CLASSES for ctx in drivers.BATCH_CTX + drivers.ROUTE_CTX]
+    obs += [roundtrip_ob(prog, cls) for cls in drivers.COND_CLASSES]
+    return obs
 
 
-FLOORS = {"group:posterior": 12}
+FLOORS = {"group:posterior": 12, "group:roundtrip": 4}
 LEVEL = "proof"
-EXPLANATION = "affine_conditional_transformation of every linear conditional class in the three batch configurations against the information-form posterior."
+EXPLANATION = ("affine_conditional_transformation of every linear conditional class in the three batch configurations against the information-form posterior; "
+               "round trip (recover p(y|x) and p(x) from p(x|y) and p(y)) for single components with the Woodbury identity as a stated axiom.")
